@@ -472,6 +472,11 @@ def scenario(rng, sched="scripted", nmax=6, sess_max=7, horizon=25, kinds=("EVSE
     rng2 = random.Random(rng.randrange(1 << 40))  # (a second stream: the options below must not shift the scenarios drawn above)
     if rng2.random() < odd_ids_p:
         odd_ids(rng2, d)
+    if rng2.random() < 0.1:
+        # voltages and phase angles as elements of a narrow numpy table (a wiring sheet read with an economical dtype); a value
+        # the type cannot hold exactly is handed over as it is
+        net["num_type"] = {"phase": rng2.choice(["int8", "int16", "float16", "float32", "int32"]),
+                           "voltage": rng2.choice(["int16", "uint16", "uint8", "float32", "float16", "int32"])}
     if rng2.random() < int_type_p:
         # period indices as they come out of a numpy table / a pandas column: numpy integer scalars, unsigned ones included
         d["int_type"] = rng2.choice(["uint16", "uint8" if last < 200 else "uint32", "uint32", "uint64", "int16", "int32", "int64"])
